@@ -56,7 +56,9 @@ ToS(s) ==
 (* comparison with the closed specification ignores event identities *)
 Strip(e) == <<e.time, e.prio, e.asset, e.kind, e.cancelled, e.pausedAt, e.arg>>
 Bag(Q) == [x \in {Strip(e) : e \in Q} |-> Cardinality({e \in Q : Strip(e) = x})]
-Core(S) == [S EXCEPT !.q = Bag(S.q), !.pq = Bag(S.pq), !.nextEid = 0]
+Core(S) == [S EXCEPT !.q = Bag(S.q), !.pq = Bag(S.pq), !.nextEid = 0,
+                     \* a batch has no value of its own (the implementation reports the sum of its parts)
+                     !.part = [p \in DOMAIN @ |-> IF @[p].batch THEN [@[p] EXCEPT !.value = 0] ELSE @[p]]]
 
 
 (* fields in which the specification's next state differs from the logged one (diagnostics) *)
